@@ -41,8 +41,11 @@ def delete(t, path):
     return t[:path[0]] + [delete(t[path[0]], path[1:])] + t[path[0] + 1:]
 
 
-def shrink(sx, classify, target="native", max_rounds=60):
-    """classify(model, result) -> failure class string or None. Returns the shrunk S-expression."""
+def shrink(sx, classify, target="native", max_rounds=60, budget_s=75, max_cands=48):
+    """classify(model, result) -> failure class string or None. Returns the shrunk S-expression.
+    Best effort within a wall-clock budget: at most `max_cands` candidate deletions are tried per round."""
+    import time
+    deadline = time.time() + budget_s
     tree = parse(sx)
     m0 = model_run([sx])[0]
     r0 = run_project({"main.fer": m0["text"]}, mode="run", target=target)
@@ -50,10 +53,12 @@ def shrink(sx, classify, target="native", max_rounds=60):
     if want is None:
         return sx
     for _ in range(max_rounds):
+        if time.time() > deadline:
+            break
         ps = paths(tree)
         # larger deletions first
         ps.sort(key=lambda p: -len(show(_get(tree, p))))
-        cands = [delete(tree, p) for p in ps]
+        cands = [delete(tree, p) for p in ps[:max_cands]]
         texts = [show(c) for c in cands]
         ms = model_run(texts)
         jobs, idx = [], []
